@@ -1048,3 +1048,42 @@ def modify_token_frames():
     if len(out) < 40:
         out.append({"name": "structural::C08::modify_token[coverage]", "ok": False, "undecided": True, "info": "expected 15 classes", "detail": f"{len(out)} obligations"})
     return out
+
+
+@check("C10")
+def fix_consults_pragmas():
+    """'A file whose scan shows no failure from a fix-capable rule is left byte-identical': a failure that a pragma suppresses in
+    scan mode must not be fixed either, so the fix passes have to compile the document's pragmas and consult them like the scan
+    path does (FileScanHelper.__process_file_scan -> PluginManager.compile_pragmas; PluginManager.log_scan_failure).  Obligation:
+    FileScanHelper.__process_file_fix_tokens and __process_file_fix_lines (or a function they call in file_scan_helper.py) call
+    compile_pragmas.  One obligation per fix pass function."""
+    rel = "pymarkdown/file_scan_helper.py"
+    tree = parse(os.path.join(front.REPO_ROOT, rel))
+    fns = {q: fn for q, fn in enclosing_functions(tree)}
+
+    def reaches(q, seen):
+        fn = fns.get(q)
+        if fn is None or q in seen:
+            return False
+        seen.add(q)
+        for c in ast.walk(fn):
+            if isinstance(c, ast.Call) and isinstance(c.func, ast.Attribute):
+                if c.func.attr == "compile_pragmas":
+                    return True
+                callee = c.func.attr
+                for cand in (f"FileScanHelper.{callee}", f"FileScanHelper._FileScanHelper{callee}"):
+                    if cand in fns and reaches(cand, seen):
+                        return True
+        return False
+
+    out = []
+    for q in ("FileScanHelper.__process_file_fix_tokens", "FileScanHelper.__process_file_fix_lines"):
+        ok = reaches(q, set())
+        out.append({"name": f"structural::C10::fix_consults_pragmas[{q}]", "ok": ok and q in fns,
+                    "info": "the fix pass compiles the document's pragmas (a suppressed failure must not be fixed)",
+                    "detail": f"{rel}: {q} {'reaches' if ok else 'never reaches'} PluginManager.compile_pragmas"})
+    # the scan path is the positive control: the same search must find the call there
+    ctrl = reaches("FileScanHelper.__process_file_scan", set())
+    out.append({"name": "structural::C10::fix_consults_pragmas[control:__process_file_scan]", "ok": ctrl,
+                "info": "control: the scan path compiles the pragmas", "detail": f"found={ctrl}"})
+    return out
